@@ -2,6 +2,7 @@
    implementation is the history correspondence of Run/SCore.v).  Statements only. *)
 From Coq Require Import ZArith NArith List Bool String Permutation.
 From DM Require Import Base.PyVal Spec.Nf Spec.Table Spec.Ops Proofs.ListX Proofs.TableFacts Proofs.TakeFacts.
+From DM Require Import Model.LTable Gen.KCore Model.Core Proofs.CoreRefine.
 Import ListNotations.
 
 (* After ANY finite sequence of operations of the alphabet (Spec.Ops.op), applied to any pool members
@@ -29,6 +30,56 @@ Theorem C01_frame : forall w o j,
   (j < List.length (pool w))%nat -> target o <> Some j -> get (fst (step w o)) j = get w j.
 Proof. exact step_frame. Qed.
 Print Assumptions C01_frame.
+
+(* ---- L1 refines L0: the implementation-shaped, id-based algorithms (Model/Core.v, with the integer and
+   decision kernels regenerated from _datamatrix.py / _index.py / _basecolumn.py) compute the positional
+   operations above on every object graph that satisfies the representation invariant inv_b. ---- *)
+
+(* MixedColumn lookup: the Index position cache (a dict, last occurrence wins), when absent or valid *)
+Theorem C01_dict_lookup_is_positional : forall i k,
+  meta_ok i = true -> NoDup (ia i) -> idx_index i k = pos_of k (ia i).
+Proof. exact idx_index_pos. Qed.
+Print Assumptions C01_dict_lookup_is_positional.
+
+(* numeric column lookup: argsort + searchsorted *)
+Theorem C01_argsort_searchsorted_is_positional : forall ids k,
+  NoDup ids -> In k ids ->
+  nth_error (argsort ids) (searchsorted (map (fun p => nth p ids 0%N) (argsort ids)) k) = pos_of k ids.
+Proof. exact argsort_searchsorted_pos. Qed.
+Print Assumptions C01_argsort_searchsorted_is_positional.
+
+(* DataMatrix._selectrowid (every column fetched by id) is the positional take *)
+Theorem C01_selectrowid_refines : forall t key r,
+  inv_b t = true -> (forall k, In k (ia key) -> In k (ia (l_rowid t))) ->
+  selectrowid t key = Some r ->
+  exists ps, all_some (map (fun k => pos_of k (ia (l_rowid t))) (ia key)) = Some ps
+             /\ take ps (abs t) = Some (abs r).
+Proof. exact selectrowid_refines. Qed.
+Print Assumptions C01_selectrowid_refines.
+
+(* step level: selection, slicing, row lists, sorting, shuffling, sampling (new table) ... *)
+Theorem C01_l1_step_refines_new : forall (w : world) p o r,
+  pool w = map abs p -> winv p ->
+  match o with OMerge _ _ _ => False | _ => True end ->
+  lstep p o = LNew r -> snd (step w o) = OkNew -> fst (step w o) = push w (abs r).
+Proof. exact lstep_new_refines. Qed.
+Print Assumptions C01_l1_step_refines_new.
+
+(* ... resizing and row deletion (in place) ... *)
+Theorem C01_l1_step_refines_upd : forall (w : world) p o i r,
+  pool w = map abs p -> winv p ->
+  lstep p o = LUpd i r -> snd (step w o) = OkUnit -> fst (step w o) = put w i (abs r).
+Proof. exact lstep_upd_refines. Qed.
+Print Assumptions C01_l1_step_refines_upd.
+
+(* ... and merging (both column algorithms: dict lookups; isin masks + concatenate + argsort/searchsorted) *)
+Theorem C01_l1_merge_refines : forall (w : world) o ta tb a b r,
+  inv_b a = true -> inv_b b = true ->
+  get w ta = Some (abs a) -> get w tb = Some (abs b) ->
+  merge_tables o a b = Some r ->
+  snd (step w (OMerge o ta tb)) = OkNew -> fst (step w (OMerge o ta tb)) = push w (abs r).
+Proof. exact merge_refines. Qed.
+Print Assumptions C01_l1_merge_refines.
 
 (* non-vacuity: a concrete history mixing column kinds, selection, sort order, resize and merge *)
 Definition ex_history : list op :=
